@@ -348,6 +348,7 @@ class Engine:
         self.path_log = []
         self.env_hook = None
         self.ghost = {}
+        self.big_consts = {}
 
     # ------------------------------------------------------------------ path exploration
     def explore(self, body):
@@ -360,6 +361,8 @@ class Engine:
             self.trace = []
             self.solver = z3.Solver()
             self.solver.set('timeout', self.timeout_ms)
+            for k in self.big_consts.values():
+                self.solver.add(k.t >= 1)
             self.univ = []
             self.key_terms = []
             self.path_log = []
@@ -374,6 +377,15 @@ class Engine:
                 body()
             except PathEnd:
                 pass
+
+    def big_const(self, v):
+        k = SInt(z3.Int(f'K_{v}'))
+        if v not in self.big_consts:
+            self.big_consts[v] = k
+            if self.solver is not None:
+                self.solver.add(k.t >= 1)
+            self.note(f'integer literal {v} generalised to an arbitrary positive integer K_{v}')
+        return k
 
     def _prove_quick(self, cond):
         """Used by the term simplifier: does the current path condition imply `cond`? (arithmetic side conditions)"""
@@ -402,6 +414,11 @@ class Engine:
         t0 = time.time()
         r = self.solver.check(*assumptions)
         dt = time.time() - t0
+        if dt > 1.0 and os.environ.get('PYVC_SLOW'):
+            import sys
+            print(f'[slow {dt:.1f}s {r}] path={self.path_log[-4:]} q={str(assumptions)[:300]}', file=sys.stderr, flush=True)
+            if os.environ.get('PYVC_SLOW') == 'dump':
+                open(f'/tmp/pv/slow_{int(t0)}.smt2', 'w').write(self.solver.to_smt2() + '\n; ' + str(assumptions))
         self.stats['solver_calls'] += 1
         self.stats['solver_time'] += dt
         return r
